@@ -1,0 +1,13 @@
+//go:build verif
+
+package generator
+
+import "github.com/EliCDavis/polyform/generator/graph"
+
+// VerifGraph initialises and returns the application's graph instance so the
+// verification harness can drive editor operations on the same instance that
+// App.Schema / App.ApplySchema save and load. Only compiled with -tags verif.
+func (a *App) VerifGraph() *graph.Instance {
+	a.initGraphInstance()
+	return a.graphInstance
+}
